@@ -89,6 +89,7 @@ def compressed_pubkey(pubkey_: bytes) -> bytes:
     assert len(pubkey_) == 33 or len(pubkey_) == 65
     prefix = pubkey_[0:1]
     if prefix in [b"\x02", b"\x03"]:
+        point(pubkey_)  # raises unless this is a valid 33-byte compressed encoding
         return pubkey_
     elif prefix == b"\x04":
         return pubkey(*point(pubkey_), compressed=True)
